@@ -140,6 +140,9 @@ func applyCorruption(n *node.Node, c C07Corr, start, limit uint64, reqs []node.R
 	switch c.Kind {
 	case "status":
 		return []int{404, 429, 500, 502}[c.Arg%4], []byte("upstream says no \x01\x02"), true
+	case "status_body":
+		// a failure status on top of a complete, well-formed answer
+		return []int{404, 429, 500, 502, 503, 301}[c.Arg%6], encode(), true
 	case "non_json":
 		return 200, []byte("<html>gateway timeout</html>"), true
 	case "wrong_shape":
@@ -1052,7 +1055,7 @@ var c07NeedSets = [][]string{
 }
 var c07Kinds = []string{"status", "non_json", "wrong_shape", "truncate", "drop", "dup", "swap", "null", "error", "renumber", "break_parent", "break_hash",
 	"move_log_in", "move_log_out", "move_log_tx", "move_receipt_in", "move_first_receipt_in", "move_receipt_out", "move_trace_in", "move_first_trace_in", "move_trace_out",
-	"reorder_receipts", "reorder_logs", "reorder_txs", "log_hash", "log_tx_beyond", "trace_tx_beyond"}
+	"reorder_receipts", "reorder_logs", "reorder_txs", "log_hash", "log_tx_beyond", "trace_tx_beyond", "status_body"}
 
 var (
 	c07Once  sync.Once
@@ -1094,6 +1097,8 @@ func c07Init() {
 							switch kind {
 							case "status":
 								args = 4
+							case "status_body":
+								args = 6
 							case "truncate":
 								args = 6
 							case "renumber":
